@@ -26,21 +26,29 @@ struct obs_t
 
 struct monitor_t
 {
+    // three training and three validation samples, interleaved (a mean taken over the wrong index set would differ); the per-sample
+    // errors are v - 1, v, v + 1 so that each mean is exactly the history value v
     explicit monitor_t(bool has_valid)
         : m_values(make_values(0, 0, -1))
         , m_es(m_values)
-        , m_train(make_indices(0))
-        , m_valid(has_valid ? make_indices(1) : indices_t{})
+        , m_train(make_indices(0, 2, 5))
+        , m_valid(has_valid ? make_indices(1, 3, 4) : indices_t{})
     {
     }
 
     static tensor2d_t make_values(int64_t tr, int64_t vd, int64_t tag)
     {
-        tensor2d_t values(2, 2);
-        values(0, 0) = static_cast<scalar_t>(tr); // error of the training sample
-        values(0, 1) = static_cast<scalar_t>(vd); // error of the validation sample
-        values(1, 0) = static_cast<scalar_t>(tag); // "loss" rows carry the round tag
-        values(1, 1) = static_cast<scalar_t>(tag);
+        tensor2d_t values(2, 6);
+        values(0, 0) = static_cast<scalar_t>(tr - 1);
+        values(0, 2) = static_cast<scalar_t>(tr);
+        values(0, 5) = static_cast<scalar_t>(tr + 1);
+        values(0, 1) = static_cast<scalar_t>(vd + 1);
+        values(0, 3) = static_cast<scalar_t>(vd - 1);
+        values(0, 4) = static_cast<scalar_t>(vd);
+        for (tensor_size_t i = 0; i < 6; ++i)
+        {
+            values(1, i) = static_cast<scalar_t>(tag); // "loss" rows carry the round tag
+        }
         return values;
     }
 
@@ -56,7 +64,18 @@ struct monitor_t
     }
 
     // the per-sample values held are those of the reported round
-    bool snapshot_consistent(int64_t tr, int64_t vd) const { return m_es.values()(0, 0) == static_cast<scalar_t>(tr) && m_es.values()(0, 1) == static_cast<scalar_t>(vd); }
+    bool snapshot_consistent(int64_t tr, int64_t vd) const
+    {
+        const auto want = make_values(tr, vd, 0);
+        for (tensor_size_t i = 0; i < 6; ++i)
+        {
+            if (m_es.values()(0, i) != want(0, i))
+            {
+                return false;
+            }
+        }
+        return true;
+    }
 
     tensor2d_t                 m_values;
     gboost::early_stopping_t   m_es;
